@@ -7,7 +7,7 @@ from ..gen import J, JI
 from . import lincommon as lc
 
 PROP = "C19"
-HOSTILE = ('scale', 'mean')
+HOSTILE = ('scale', 'mean', 'special')
 MONITORS = ("WF",)
 ANCHORS = [("pdf.py", "GaussianPDF.sample")]
 RULE = ("cell = (full|diag density, R, D, correlation regime); structural oracle: for the same key "
